@@ -624,7 +624,7 @@ func (t *TCP) SetInternalPortsForTesting() {
 }
 
 func (t *TCP) VerifyChecksum() (error, gopacket.ChecksumVerificationResult) {
-	bytes := append(t.Contents, t.Payload...)
+	bytes := append(t.Contents[:len(t.Contents):len(t.Contents)], t.Payload...)
 
 	existing := t.Checksum
 	verification, err := t.computeChecksum(bytes, IPProtocolTCP)
